@@ -6,12 +6,14 @@
   byte-level model of net/url and html/template (Model/AuthResponse.lean).  The monitor is Spec/C11.lean.
 
   * query mode: the monitor accepts the model's answer for ALL inputs                      (`c11_holds_query`)
-  * fragment mode: FALSE on the unchanged tree (second percent-encoding, F-C11a): exact description of the wire
-    format for all inputs (`c11_fragment_wire`), the part that holds (`c11_fragment_roundtrip_partial`), witness
+  * fragment mode: the monitor accepts the model's answer for ALL inputs                   (`c11_holds_fragment`);
+    the raw fragment is the encoded response itself, escaped once (`c11_fragment_wire`, `c11_fragment_roundtrip`)
   * form_post: for ALL redirect URIs and values the page tokenises to exactly the expected tags, nothing can
-    break out (`c11_form_tags`), the decoded submission is the listed parameters unchanged
-    (`c11_form_submission_partial`); FALSE as a whole on the unchanged tree: custom schemes lose the action
-    (F-C11b), `session_state` is not in the template (F-C11c): witnesses
+    break out (`c11_form_tags`), the decoded submission is the listed parameters unchanged (`c11_form_submission`),
+    every parameter of an authorization response is listed (`template_lists_required`), and the monitor accepts
+    the page whenever html/template's URL filter lets the redirect URI's scheme through
+    (`c11_holds_form_partial`); FALSE as a whole on the current tree: custom schemes lose the action (F-C11b,
+    witness `c11_form_custom_scheme_witness`)
 -/
 import OidcModel.Proofs.C11Html
 
@@ -28,14 +30,27 @@ theorem formPostTemplate_ok : templateOK GenWire.formPostTemplate = true := by d
 /-- pkg/op/auth_request.go renders it with html/template -/
 theorem formPostAutoescape_on : GenWire.formPostAutoescape = true := by decide
 
-/-- parameters of the success responses that the template does NOT carry (F-C11c): pinned, so that a template
-    change shows up here -/
+/-- names of the success responses that the template does NOT carry: pinned, so that a template change shows up here -/
 def notInTemplate (names : List AR.Bytes) : List AR.Bytes :=
   names.filter fun n => !(GenWire.formPostTemplate.any fun nd => match nd with | .withParam m _ _ => m == n | _ => false)
 
+/-- what the form leaves out of the code response struct and of what `AuthResponseToken` encodes: `refresh_token` and
+    `scope` — neither is a parameter of an authorization response the statement names (`required`) -/
 theorem template_missing_params :
-    notInTemplate (GenWire.codeResponseParams ++ GenWire.tokenResponseParams)
-      = [AR.ascii "session_state", AR.ascii "refresh_token", AR.ascii "scope"] := by decide
+    notInTemplate (GenWire.codeResponseParams ++ GenWire.implicitResponseParams)
+      = [AR.ascii "refresh_token", AR.ascii "scope"] := by decide
+
+/-- **every parameter the statement names that a success response can carry is in the form** (regenerated template
+    against the regenerated `schema` names of the code response struct and of what `AuthResponseToken` encodes;
+    error responses always travel in a Location value) -/
+theorem template_lists_required :
+    (notInTemplate (GenWire.codeResponseParams ++ GenWire.implicitResponseParams)).filter required = [] := by decide
+
+/-- the implicit-flow response carries the session state next to the token response, as the code response does -/
+theorem implicit_response_has_session_state :
+    GenWire.implicitResponseParams.contains (AR.ascii "session_state") = true
+    ∧ GenWire.codeResponseParams.contains (AR.ascii "session_state") = true
+    ∧ GenWire.errorResponseParams.contains (AR.ascii "session_state") = true := by decide
 
 -- ---------------------------------------------------------------- response mode decision (G-fact)
 
@@ -135,12 +150,12 @@ theorem restTags_inputs (params : AR.Values) (rest : List AR.Node) :
           List.filterMap_cons, id]
         exact ⟨ih.1, by rw [ih.2]⟩
 
-/-- **C11, form_post, what the user agent submits (the part that holds).**  For every redirect URI and every
+/-- **C11, form_post, what the user agent submits, all inputs.**  For every redirect URI and every
     response whose values contain neither NUL nor CR: the decoded page is accepted as an auto-submitting form
     (`formOf`), its action is the URL-normalised redirect URI (`#ZgotmplZ` if html/template's URL filter rejects
-    the scheme — F-C11b), and its fields are exactly the template-listed parameters with their values UNCHANGED.
-    (Parameters the template does not list are not submitted — F-C11c.) -/
-theorem c11_form_submission_partial (uri : Bytes) (params : AR.Values)
+    the scheme — F-C11b), and its fields are exactly the template-listed parameters with their values UNCHANGED
+    (which names are listed: `formPostTemplate_names`, `template_lists_required`). -/
+theorem c11_form_submission (uri : Bytes) (params : AR.Values)
     (hv : ∀ name, ∀ v ∈ params.get name, ∀ c ∈ v, c ≠ 0x0D ∧ c ≠ 0) :
     formOf ((tokenize (AR.render GenWire.formPostAutoescape GenWire.formPostTemplate uri params)).map decodeTag)
       = .ok (AR.urlNormalize (AR.urlFilter uri), restFields params (GenWire.formPostTemplate.drop 3)) := by
@@ -235,6 +250,10 @@ structure ParseOK (uri : Bytes) (u : AR.URL) : Prop where
   rawQuery : locationQuery uri = u.RawQuery
   target : sameTarget u.base (locationBase uri) = true
 
+/-- the query text url.Parse reports contains no `#` -/
+theorem ParseOK.nohash {uri : Bytes} {u : AR.URL} (h : ParseOK uri u) : ∀ b ∈ u.RawQuery, b ≠ 0x23 := by
+  rw [← h.rawQuery]; exact locationQuery_nohash uri
+
 /-- **C11 holds in query mode, for all inputs.**  Whatever the redirect URI (with query, with fragment, custom
     scheme, …), the response (any names, any byte strings) and whatever url.Parse answered within `ParseOK`:
     the monitor accepts the Location value the regenerated `mergeQueryParams` produces — every parameter is
@@ -244,12 +263,17 @@ theorem c11_holds_query (now : Int) (i : Input) (u : AR.URL) (resp : AR.Values)
     (hpar : ParseOK i.uri u) (hresp : i.params = flatten resp.entries) (hd : DistinctKeys resp.entries)
     (hch : (channels i).contains Channel.query = true) :
     monitor i (.redirect (GenWire.mergeQueryParams now u resp)) = none := by
+  have hq := hpar.nohash
   simp only [monitor, hch, if_true, checkQuery]
-  rw [c11_query_base now u resp hpar.base, hpar.target]
+  rw [c11_query_base now u resp hpar.base hq, hpar.target]
   simp only [Bool.not_true, Bool.false_eq_true, if_false]
-  apply paramsArrive_none
-  intro k
-  rw [c11_query_roundtrip now u resp hpar.base hd k, hpar.rawQuery, hresp, valuesOf_flatten_get k _ hd]
+  have h1 : paramsArrive "query" i.params (parseQuery (locationQuery i.uri))
+      (parseQuery (locationQuery (GenWire.mergeQueryParams now u resp))) = none := by
+    apply paramsArrive_none
+    intro k
+    rw [c11_query_roundtrip now u resp hpar.base hq hd k, hpar.rawQuery, hresp, valuesOf_flatten_get k _ hd]
+  rw [h1]
+  simp [unreadKept, c11_query_unread_kept now u resp hpar.base hq, hpar.rawQuery]
 
 /-- the same through the regenerated mode decision of `AuthResponseURL` -/
 theorem c11_holds_query_mode (now : Int) (parse : AR.Bytes → Go.R AR.URL) (i : Input) (u : AR.URL) (resp : AR.Values)
@@ -266,7 +290,144 @@ theorem c11_holds_query_mode (now : Int) (parse : AR.Bytes → Go.R AR.URL) (i :
     · simp [channels, h]
     · simp [channels, h1, h2]
 
--- ---------------------------------------------------------------- non-vacuity and the findings on the unchanged tree
+-- ---------------------------------------------------------------- the monitor on the model's answer: fragment mode
+
+/-- **C11 holds in fragment mode, for all inputs.**  Whatever the redirect URI (with query, with its own fragment,
+    custom scheme, …), the response (any names, any byte strings: `+ / = & % # ?`, spaces, quotes, non-ASCII, invalid
+    UTF-8) and whatever url.Parse answered within `ParseOK`: the monitor accepts the Location value the regenerated
+    `setFragment` produces — parsing the raw text after `#` ONCE as form data recovers every parameter unchanged,
+    nothing is invented, the redirect URI's own query is untouched, the target is the redirect URI. -/
+theorem c11_holds_fragment (now : Int) (i : Input) (u : AR.URL) (resp : AR.Values)
+    (hpar : ParseOK i.uri u) (hresp : i.params = flatten resp.entries) (hd : DistinctKeys resp.entries)
+    (hnq : (channels i).contains Channel.query = false) (hch : (channels i).contains Channel.fragment = true) :
+    monitor i (.redirect (GenWire.setFragment now u resp)) = none := by
+  have hq := hpar.nohash
+  obtain ⟨hf, hlq, hlb⟩ := c11_fragment_wire now u resp hpar.base hq
+  simp only [monitor, hnq, hch, if_true, Bool.false_eq_true, if_false, checkFragment]
+  rw [hlb, hpar.target, hf, hlq]
+  simp only [Bool.not_true, Bool.false_eq_true, if_false]
+  by_cases hne : resp.Encode = []
+  · simp [hne, hresp, Encode_nil_flatten resp hd hne]
+  · simp only [hne, if_false]
+    have h1 : paramsArrive "fragment" i.params [] (parseQuery resp.Encode) = none := by
+      apply paramsArrive_none
+      intro k
+      rw [valuesOf_parseQuery_Encode resp hd k, hresp, valuesOf_flatten_get k _ hd]; rfl
+    have h2 : paramsArrive "query" [] (parseQuery (locationQuery i.uri)) (parseQuery u.RawQuery) = none := by
+      apply paramsArrive_none
+      intro k
+      rw [hpar.rawQuery]; simp [valuesOf]
+    rw [h1, h2]
+    simp [unreadKept, hpar.rawQuery]
+
+/-- the same through the regenerated mode decision of `AuthResponseURL` -/
+theorem c11_holds_fragment_mode (now : Int) (parse : AR.Bytes → Go.R AR.URL) (i : Input) (u : AR.URL) (resp : AR.Values)
+    (hu : parse i.uri = .ok u) (hpar : ParseOK i.uri u) (hresp : i.params = flatten resp.entries) (hd : DistinctKeys resp.entries)
+    (hmode : i.mode = "fragment" ∨ (i.mode = "" ∧ implicitType i.rtype = true)) :
+    ∃ loc, GenWire.AuthResponseURL now parse i.uri i.rtype i.mode resp () = .ok loc ∧ monitor i (.redirect loc) = none := by
+  refine ⟨GenWire.setFragment now u resp, ?_, ?_⟩
+  · rw [authResponseURL_channel now parse i.uri i.rtype i.mode resp u hu]
+    rcases hmode with h | ⟨h1, h2⟩
+    · simp [h]
+    · simp [h1, h2]
+  · apply c11_holds_fragment now i u resp hpar hresp hd
+    · rcases hmode with h | ⟨h1, h2⟩
+      · simp [channels, h]
+      · simp [channels, h1, h2]
+    · rcases hmode with h | ⟨h1, h2⟩
+      · simp [channels, h]
+      · simp [channels, h1, h2]
+
+-- ---------------------------------------------------------------- the monitor on the model's answer: form_post
+
+/-- the parameter names of the hidden inputs of a template -/
+def nodeNames : List AR.Node → List Bytes
+  | [] => []
+  | .withParam name _ _ :: rest => name :: nodeNames rest
+  | _ :: rest => nodeNames rest
+
+/-- the hidden inputs of the regenerated template, in order -/
+theorem formPostTemplate_names :
+    nodeNames (GenWire.formPostTemplate.drop 3)
+      = [s "state", s "code", s "id_token", s "access_token", s "token_type", s "expires_in", s "session_state"] := by decide
+
+theorem valuesOf_restFields (params : AR.Values) (nodes : List AR.Node) (hn : (nodeNames nodes).Nodup) (k : Bytes) :
+    valuesOf k (restFields params nodes) = if (nodeNames nodes).contains k then (params.get k).take 1 else [] := by
+  induction nodes with
+  | nil => simp [restFields, nodeNames, valuesOf]
+  | cons n rest ih =>
+    cases n with
+    | text t => exact ih hn
+    | redirectURI => exact ih hn
+    | withParam name pre post =>
+      simp only [nodeNames, List.nodup_cons] at hn
+      simp only [restFields, nodeNames, valuesOf_append, ih hn.2, List.contains_cons]
+      by_cases hk : k = name
+      · subst hk
+        have hnc : (nodeNames rest).contains k = false := by simpa using hn.1
+        simp only [hnc, beq_self_eq_true, Bool.true_or, if_true, Bool.false_eq_true, if_false, List.append_nil]
+        cases params.get k with
+        | nil => simp [valuesOf]
+        | cons v vs => simp [valuesOf]
+      · have hk' : (name == k) = false := by simp; exact fun h => hk h.symm
+        have hk'' : (k == name) = false := by simp; exact hk
+        simp only [hk'', Bool.false_or]
+        cases params.get name with
+        | nil => simp [valuesOf]
+        | cons v vs => simp [valuesOf, hk']
+
+theorem get_nil_of_not_key (es : Entries) (k : Bytes) (h : k ∉ es.map (·.1)) : AR.Values.get ⟨es⟩ k = [] := by
+  induction es with
+  | nil => rfl
+  | cons e es ih =>
+    simp only [List.map_cons, List.mem_cons, not_or] at h
+    have : (e.1 == k) = false := by simp; exact fun heq => h.1 heq.symm
+    rw [get_cons, this]; simpa using ih h.2
+
+theorem get_of_mem (es : Entries) (hd : DistinctKeys es) (e : Bytes × List Bytes) (he : e ∈ es) : AR.Values.get ⟨es⟩ e.1 = e.2 := by
+  induction es with
+  | nil => simp at he
+  | cons x es ih =>
+    simp only [DistinctKeys, List.map_cons, List.nodup_cons] at hd
+    rw [get_cons]
+    rcases List.mem_cons.mp he with h | h
+    · subst h; simp
+    · have : (x.1 == e.1) = false := by
+        simp only [beq_eq_false_iff_ne, ne_eq]
+        intro heq; exact hd.1 (heq ▸ List.mem_map_of_mem h)
+      rw [this]; simpa using ih hd.2 h
+
+/-- **C11 holds in form_post mode whenever the form's action survives** (partial: F-C11b).  For every redirect URI
+    whose scheme html/template's URL filter lets through (no scheme, http, https, mailto) and every response of
+    template-listed parameters (one value each, no NUL / CR): the monitor accepts the page rendered from the
+    regenerated template — it is exactly the auto-submitting form, its action addresses the redirect URI, every
+    parameter is submitted with its value unchanged, nothing else is in the page. -/
+theorem c11_holds_form_partial (i : Input) (resp : AR.Values)
+    (hsafe : AR.isSafeURL i.uri = true)
+    (hresp : i.params = flatten resp.entries) (hd : DistinctKeys resp.entries)
+    (hv : ∀ name, ∀ v ∈ resp.get name, ∀ c ∈ v, c ≠ 0x0D ∧ c ≠ 0)
+    (hlisted : ∀ e ∈ resp.entries, e.1 ∈ nodeNames (GenWire.formPostTemplate.drop 3) ∧ e.2.length ≤ 1)
+    (hch : (channels i).contains Channel.form = true) :
+    monitor i (.form (AR.render GenWire.formPostAutoescape GenWire.formPostTemplate i.uri resp)
+      ((tokenize (AR.render GenWire.formPostAutoescape GenWire.formPostTemplate i.uri resp)).map decodeTag)) = none := by
+  simp only [monitor, hch, if_true, checkForm, bne_self_eq_false, Bool.false_eq_true, if_false]
+  rw [c11_form_submission i.uri resp hv]
+  simp only [c11_form_action_target i.uri hsafe, Bool.not_true, Bool.false_eq_true, if_false]
+  apply paramsArrive_none
+  intro k
+  have hnodup : (nodeNames (GenWire.formPostTemplate.drop 3)).Nodup := by rw [formPostTemplate_names]; decide
+  rw [valuesOf_restFields resp _ hnodup k, hresp, valuesOf_flatten_get k _ hd]
+  simp only [valuesOf, List.filter_nil, List.map_nil, List.nil_append]
+  by_cases hk : k ∈ resp.entries.map (·.1)
+  · obtain ⟨e, he, rfl⟩ := List.mem_map.mp hk
+    obtain ⟨hl1, hl2⟩ := hlisted e he
+    have hl1' : (nodeNames (GenWire.formPostTemplate.drop 3)).contains e.1 = true := by simpa using hl1
+    rw [get_of_mem _ hd e he]
+    simp only [hl1', if_true]
+    exact List.take_of_length_le hl2
+  · rw [get_nil_of_not_key _ k hk]; simp
+
+-- ---------------------------------------------------------------- non-vacuity and the remaining finding
 
 def wUri : Bytes := s "https://rp.example/cb?tenant=acme#/app"
 def wURL : AR.URL := { base := s "https://rp.example/cb", RawQuery := s "tenant=acme", Fragment := s "/app" }
@@ -291,29 +452,43 @@ def wPage (uri : Bytes) (resp : AR.Values) : Bytes := AR.render GenWire.formPost
 def wForm (uri : Bytes) (resp : AR.Values) : Observed := .form (wPage uri resp) ((tokenize (wPage uri resp)).map decodeTag)
 
 set_option maxRecDepth 1000000 in
-/-- **F-C11a (witness, unchanged tree): fragment mode percent-encodes twice.**  `state=a+b` is on the wire as
-    `#state=a%252Bb`; the user agent recovers `a%2Bb`.  The full fragment-mode statement is therefore false. -/
-theorem c11_fragment_double_encoding_witness :
-    monitor { uri := wPlain, uriOK := true, mode := "fragment", rtype := "code", isError := false, params := [(s "state", s "a+b")] }
-      (.redirect (GenWire.setFragment 0 wPlainURL ⟨[(s "state", [s "a+b"])]⟩)) = some "fragment-param-encoded-twice:state" := by decide
+/-- fragment mode with a value that needs a percent escape: `state=a+b` is on the wire as `#state=a%2Bb`, the user
+    agent recovers `a+b` (concrete accepted case; the input of the repaired finding F-C11a) -/
+example : monitor { uri := wPlain, uriOK := true, mode := "fragment", rtype := "code", isError := false, params := [(s "state", s "a+b")] }
+    (.redirect (GenWire.setFragment 0 wPlainURL ⟨[(s "state", [s "a+b"])]⟩)) = none := by decide
 
 set_option maxRecDepth 1000000 in
-/-- fragment mode on a value without special bytes is accepted (the partial theorem is not vacuous) -/
-example : monitor { uri := wPlain, uriOK := true, mode := "fragment", rtype := "id_token", isError := false, params := [(s "state", s "a b-c_d.e~f")] }
-    (.redirect (GenWire.setFragment 0 wPlainURL ⟨[(s "state", [s "a b-c_d.e~f"])]⟩)) = none := by decide
+/-- … on a redirect URI with query and fragment of its own, every kind of awkward byte in the values -/
+example : monitor { uri := wUri, uriOK := true, mode := "", rtype := "id_token", isError := false, params := flatten wResp.entries }
+    (.redirect (GenWire.setFragment 0 wURL wResp)) = none := by decide
 
 set_option maxRecDepth 1000000 in
-/-- **F-C11b (witness, unchanged tree): form_post with a custom-scheme redirect URI posts to `#ZgotmplZ`** -/
+/-- a concrete rejected case: a Location whose fragment was escaped a second time is flagged -/
+example : monitor { uri := wPlain, uriOK := true, mode := "fragment", rtype := "code", isError := false, params := [(s "state", s "a+b")] }
+    (.redirect (s "https://rp.example/cb#state=a%252Bb")) = some "fragment-param-encoded-twice:state" := by decide
+
+set_option maxRecDepth 1000000 in
+/-- a concrete rejected case: a Location that lost the setting `a;b=1` of the redirect URI's query (what rebuilding the
+    query from `url.Values` does; the input of the repaired finding F-C18a) is flagged -/
+example : monitor { uri := s "https://rp.example/cb?a;b=1&ok=1", uriOK := true, mode := "query", rtype := "code", isError := false, params := [(s "code", s "c1")] }
+    (.redirect (s "https://rp.example/cb?code=c1&ok=1")) = some "existing-query-not-preserved:unread-setting" := by decide
+
+set_option maxRecDepth 1000000 in
+/-- query mode keeps the parts of the redirect URI's query no decoder accepts (`a;b=1`, `%zz`) byte for byte -/
+example : GenWire.mergeQueryParams 0 { base := wPlain, RawQuery := s "a;b=1&%zz=2&ok=1" } ⟨[(s "code", [s "c 1"])]⟩
+    = s "https://rp.example/cb?a;b=1&%zz=2&ok=1&code=c+1" := by decide
+
+set_option maxRecDepth 1000000 in
+/-- **F-C11b (witness, current tree): form_post with a custom-scheme redirect URI posts to `#ZgotmplZ`** -/
 theorem c11_form_custom_scheme_witness :
     monitor { uri := s "myapp://callback", uriOK := true, mode := "form_post", rtype := "code", isError := false, params := [(s "code", s "c1")] }
       (wForm (s "myapp://callback") ⟨[(s "code", [s "c1"])]⟩) = some "form-action-differs" := by decide
 
 set_option maxRecDepth 1000000 in
-/-- **F-C11c (witness, unchanged tree): the form does not carry `session_state`** -/
-theorem c11_form_session_state_witness :
-    monitor { uri := wPlain, uriOK := true, mode := "form_post", rtype := "code", isError := false,
-              params := [(s "code", s "c1"), (s "state", s "x"), (s "session_state", s "ss")] }
-      (wForm wPlain ⟨[(s "code", [s "c1"]), (s "state", [s "x"]), (s "session_state", [s "ss"])]⟩) = some "form-param-missing:session_state" := by decide
+/-- the form carries `session_state` (concrete accepted case; the input of the repaired finding F-C11c) -/
+example : monitor { uri := wPlain, uriOK := true, mode := "form_post", rtype := "code", isError := false,
+                    params := [(s "code", s "c1"), (s "state", s "x"), (s "session_state", s "ss")] }
+    (wForm wPlain ⟨[(s "code", [s "c1"]), (s "state", [s "x"]), (s "session_state", [s "ss"])]⟩) = none := by decide
 
 set_option maxRecDepth 1000000 in
 /-- form_post is accepted when the scheme is http(s) and the response has only listed parameters — with values
